@@ -589,3 +589,185 @@ Proof.
   - apply iso_parse_rx_date_branch. rewrite RD. discriminate.
   - exfalso. rewrite date_regex_answer in RD. destruct (date_rx_shape s); discriminate.
 Qed.
+
+(* ================================================================== 5.  the two regexes of value_string (datetime branch) *)
+(* ---- _R_DATETIME_MICROSECOND = \.(\d{6})  under re.search: the FIRST '.' that is followed by six \d characters *)
+Definition six_digits (t : str) : bool := match take_p isd 6 t with Some _ => true | None => false end.
+
+Fixpoint us_find (pos : nat) (rest : str) : option nat :=
+  match rest with
+  | [] => None
+  | y :: t => if (y =? C_DOT)%N && six_digits t then Some pos else us_find (S pos) t
+  end.
+
+Lemma ev_us pos rest :
+  ev UC R_DATETIME_MICROSECOND pos rest [] kfin =
+  match rest with
+  | y :: t => if (y =? C_DOT)%N && six_digits t then MYes (7 + pos) [(1%nat, (S pos, 7 + pos))] else MNo
+  | [] => MNo
+  end.
+Proof.
+  change R_DATETIME_MICROSECOND with (RCat (RLit 46) (RGroup 1 (RRep 6 (Some 6) rD))).
+  rewrite ev_cat, (ev_one UC _ _ (one_lit UC 46)). destruct rest as [|y t]; [reflexivity|]. change C_DOT with 46%N.
+  destruct (y =? 46)%N; [|reflexivity]. rewrite ev_group, (ev_exact _ _ one_D). unfold six_digits.
+  destruct (take_p isd 6 t); reflexivity.
+Qed.
+
+Lemma search_us whole : forall rest f pos, length rest < f -> length rest <= length whole ->
+  re_search_from UC R_DATETIME_MICROSECOND whole f pos rest =
+  match us_find pos rest with
+  | Some b => MYes (7 + b) [(0%nat, (b, 7 + b)); (1%nat, (S b, 7 + b))]
+  | None => MNo
+  end.
+Proof.
+  induction rest as [|y t IH]; intros f pos Lf Lw; (destruct f as [|f]; [lia|]); cbn [re_search_from];
+    rewrite m_at_ev by exact Lw; rewrite ev_us.
+  - reflexivity.
+  - cbn [us_find]. destruct ((y =? C_DOT)%N && six_digits t); [reflexivity|].
+    cbn [length] in Lf, Lw. destruct f as [|f']; [lia|]. apply IH; lia.
+Qed.
+
+(* the engine's full answer: where the match is (group 0) and the six digits (group 1) *)
+Theorem microsecond_search_answer s :
+  re_search UC R_DATETIME_MICROSECOND s =
+  match us_find 0 s with
+  | Some b => MYes (7 + b) [(0%nat, (b, 7 + b)); (1%nat, (S b, 7 + b))]
+  | None => MNo
+  end.
+Proof. unfold re_search. apply search_us; lia. Qed.
+
+(* ---- _R_DATETIME_TZ_CLEANUP = ([+-]\d\d:\d\d):\d\d$  under .sub(r'\1', text) *)
+Definition sgn (y : N) : bool := ((y =? C_PLUS) || (y =? C_DASH))%N.
+
+(* the text from here on is  [+-]dd:dd:dd  followed by nothing or one newline *)
+Definition tz_at (r : str) : bool :=
+  match (do r <- take_p sgn 1 r; do r <- take_p isd 2 r; do r <- expect C_COLON r; do r <- take_p isd 2 r;
+         do r <- expect C_COLON r; take_p isd 2 r) with
+  | Some tl => eol_ok tl
+  | None => false
+  end.
+
+Fixpoint tz_cleanup (s : str) : str :=
+  match s with
+  | [] => []
+  | y :: t => if tz_at s then firstn 6 s ++ skipn 9 s else y :: tz_cleanup t
+  end.
+
+Lemma ev_one1 a p : one UC a p -> forall pos rest c k,
+  ev UC a pos rest c k = match take_p p 1 rest with Some t => k (S pos) t c | None => MNo end.
+Proof. intros O pos rest c k. rewrite O. destruct rest as [|y t]; [reflexivity|]. cbn [take_p]. destruct (p y); reflexivity. Qed.
+
+Lemma ev_DD pos rest c k :
+  ev UC (RCat rD rD) pos rest c k = match take_p isd 2 rest with Some r => k (2 + pos) r c | None => MNo end.
+Proof.
+  rewrite ev_cat, (ev_one UC _ _ one_D). destruct rest as [|y t]; [reflexivity|]. cbn [take_p]. destruct (isd y); [|reflexivity].
+  rewrite (ev_one UC _ _ one_D). destruct t as [|z t]; [reflexivity|]. destruct (isd z); reflexivity.
+Qed.
+
+Lemma ev_DD_cat X pos rest c k :
+  ev UC (RCat rD (RCat rD X)) pos rest c k = match take_p isd 2 rest with Some r => ev UC X (2 + pos) r c k | None => MNo end.
+Proof.
+  rewrite ev_cat, (ev_one UC _ _ one_D). destruct rest as [|y t]; [reflexivity|]. cbn [take_p]. destruct (isd y); [|reflexivity].
+  rewrite ev_cat, (ev_one UC _ _ one_D). destruct t as [|z t]; [reflexivity|]. destruct (isd z); reflexivity.
+Qed.
+
+Lemma tz_cleanup_regex_shape : R_DATETIME_TZ_CLEANUP =
+  RCat (RGroup 1 (RCat rSG (RCat rD (RCat rD (RCat (RLit 58) (RCat rD rD)))))) (RCat (RLit 58) (RCat rD (RCat rD REol))).
+Proof. reflexivity. Qed.
+
+Lemma ev_tz pos rest :
+  ev UC R_DATETIME_TZ_CLEANUP pos rest [] kfin = if tz_at rest then MYes (9 + pos) [(1%nat, (pos, 6 + pos))] else MNo.
+Proof.
+  rewrite tz_cleanup_regex_shape. unfold tz_at, obind.
+  rewrite ev_cat, ev_group, ev_cat, (ev_one1 _ _ one_SG). fold sgn. destruct (take_p sgn 1 rest) as [r1|]; [|reflexivity].
+  rewrite ev_DD_cat. destruct (take_p isd 2 r1) as [r2|]; [|reflexivity].
+  rewrite ev_cat, ev_litx. change 58%N with C_COLON. destruct (expect C_COLON r2) as [r3|]; [|reflexivity].
+  rewrite ev_DD. destruct (take_p isd 2 r3) as [r4|]; [|reflexivity].
+  rewrite ev_cat, ev_litx. change 58%N with C_COLON. destruct (expect C_COLON r4) as [r5|]; [|reflexivity].
+  rewrite ev_DD_cat. destruct (take_p isd 2 r5) as [r6|]; [|reflexivity].
+  rewrite ev_eol_fin. destruct (eol_ok r6); reflexivity.
+Qed.
+
+Lemma take_p_skipn p : forall n s r, take_p p n s = Some r -> r = skipn n s.
+Proof.
+  induction n as [|n IH]; intros s r H; [inversion H; reflexivity|].
+  destruct s as [|c t]; [discriminate|]. cbn [take_p] in H. destruct (p c); [|discriminate]. cbn [skipn]. apply IH. exact H.
+Qed.
+
+(* after a match the rest of the text is empty or one newline: nothing more to replace *)
+Lemma tz_at_tail r : tz_at r = true -> eol_ok (skipn 9 r) = true.
+Proof.
+  unfold tz_at, obind.
+  destruct (take_p sgn 1 r) as [r1|] eqn:E1; [|discriminate]. apply take_p_skipn in E1.
+  destruct (take_p isd 2 r1) as [r2|] eqn:E2; [|discriminate]. apply take_p_skipn in E2.
+  destruct (expect C_COLON r2) as [r3|] eqn:E3; [|discriminate]. apply expect_skip in E3.
+  destruct (take_p isd 2 r3) as [r4|] eqn:E4; [|discriminate]. apply take_p_skipn in E4.
+  destruct (expect C_COLON r4) as [r5|] eqn:E5; [|discriminate]. apply expect_skip in E5.
+  destruct (take_p isd 2 r5) as [r6|] eqn:E6; [|discriminate]. apply take_p_skipn in E6.
+  intros H. replace (skipn 9 r) with r6; [exact H|].
+  rewrite E6, E5, E4, E3, E2, E1, !skipn_skipn. reflexivity.
+Qed.
+
+Lemma tz_cleanup_eol t : eol_ok t = true -> tz_cleanup t = t.
+Proof.
+  destruct t as [|c [|z t]]; [reflexivity | | discriminate]. cbn [eol_ok]. intros H. apply N.eqb_eq in H. subst c. reflexivity.
+Qed.
+
+Lemma sub_tz whole : forall f rest pos, length rest < f -> rest = skipn pos whole ->
+  re_sub_from UC R_DATETIME_TZ_CLEANUP (fun c => gtext whole c 1) whole f pos rest = Some (tz_cleanup rest).
+Proof.
+  induction f as [|f IH]; intros rest pos Lf Hr; [lia|].
+  assert (Lw : length rest <= length whole) by (subst rest; rewrite skipn_length; lia).
+  cbn [re_sub_from]. rewrite m_at_ev by exact Lw. rewrite ev_tz.
+  destruct rest as [|y t]; [reflexivity|]. cbn [tz_cleanup]. cbn [length] in Lf.
+  pose proof (skipn_cons_nth whole pos y t (eq_sym Hr)) as [_ Ht].
+  destruct (tz_at (y :: t)) eqn:E.
+  - assert (Hlt : Nat.ltb pos (9 + pos) = true) by (apply Nat.ltb_lt; lia). rewrite Hlt.
+    replace (9 + pos - pos) with 9 by lia.
+    rewrite IH; [| rewrite skipn_length; cbn [length]; lia | rewrite Hr, skipn_skipn; f_equal; lia].
+    cbn [option_map]. f_equal. rewrite (tz_cleanup_eol _ (tz_at_tail _ E)). f_equal.
+    unfold gtext, group_text, cap_set. cbn [cap_get Nat.eqb]. unfold sub_list. rewrite <- Hr.
+    replace (6 + pos - pos) with 6 by lia. reflexivity.
+  - rewrite IH by (try lia; exact Ht). reflexivity.
+Qed.
+
+Theorem tz_cleanup_sub_answer s :
+  re_sub UC R_DATETIME_TZ_CLEANUP (fun whole c => gtext whole c 1) s = Some (tz_cleanup s).
+Proof. unfold re_sub. apply sub_tz; [lia | reflexivity]. Qed.
+
+(* ---- value_string's two regex statements together, for EVERY text: never out of fuel, never an exception *)
+Lemma us_find_some : forall rest pos b, us_find pos rest = Some b ->
+  pos <= b /\ six_digits (skipn (S (b - pos)) rest) = true.
+Proof.
+  induction rest as [|y t IH]; intros pos b H; [discriminate|]. cbn [us_find] in H.
+  destruct ((y =? C_DOT)%N && six_digits t) eqn:E.
+  - inversion H; subst b. apply andb_true_iff in E. rewrite Nat.sub_diag. cbn [skipn]. split; [lia | apply E].
+  - destruct (IH _ _ H) as [L S6]. split; [lia|]. replace (S (b - pos)) with (S (S (b - S pos))) by lia. exact S6.
+Qed.
+
+Lemma six_digits_int t : six_digits t = true -> exists v, py_int_digits (firstn 6 t) 0 = Some v.
+Proof.
+  unfold six_digits. intros H. pose proof (take_digits_u 6 t 0) as T. destruct (take_p isd 6 t); [|discriminate].
+  destruct T as (v & _ & P & _). eauto.
+Qed.
+
+(* `.ffffff` -> `.mmm` at the first '.' followed by six digits *)
+Definition us_to_ms (iso : str) : str :=
+  match us_find 0 iso with
+  | Some b =>
+    match py_int_digits (firstn 6 (skipn (S b) iso)) 0 with
+    | Some v => firstn b iso ++ [C_DOT] ++ pad3 (v / 1000) ++ skipn (7 + b) iso
+    | None => iso
+    end
+  | None => iso
+  end.
+
+Theorem value_string_tail_answer iso : value_string_tail iso = DOk (tz_cleanup (us_to_ms iso)).
+Proof.
+  unfold value_string_tail, us_to_ms. rewrite microsecond_search_answer.
+  destruct (us_find 0 iso) as [b|] eqn:F.
+  - cbn [cap_get Nat.eqb]. unfold sub_list. replace (7 + b - S b) with 6 by lia.
+    destruct (us_find_some _ _ _ F) as [_ S6]. rewrite Nat.sub_0_r in S6.
+    destruct (six_digits_int _ S6) as [v ->]. cbn [dbind]. rewrite tz_cleanup_sub_answer. reflexivity.
+  - cbn [dbind]. rewrite tz_cleanup_sub_answer. reflexivity.
+Qed.
